@@ -18,7 +18,7 @@ type C06Case struct {
 	File    string   `json:"file"`
 	Flags   []string `json:"flags"`
 	File2ID string   `json:"file2_id,omitempty"` // a second target (b.go) in the same run
-	File2   string   `json:"file2,omitempty"` // subset of --diff --print-only --skip-import-processing --skip-generated -v ; or ["API"]
+	File2   string   `json:"file2,omitempty"`    // subset of --diff --print-only --skip-import-processing --skip-generated -v ; or ["API"]
 }
 
 func init() {
@@ -28,11 +28,13 @@ func init() {
 		Rule: "universe = non-matching (patch, file) pairs: patches of every pattern kind incl. near-misses, failing and holding package/import guards with a non-matching body, multi-change and multi-file patches x files = 4 base sources x 13 layout variants (gofmt-ed, not gofmt-ed, CRLF, no final newline, BOM, trailing whitespace, mixed indentation, odd comments, build tags, unsorted/duplicated/grouped imports) x all 24 combinations of {default,--diff,--print-only} x --skip-import-processing x --skip-generated x -v, plus the library API; near-misses in which the FILE has a position-encoded token the pattern lacks (variadic, alias, grouped declaration) and for-headers with init/post around the elision; two targets in one run (5 x 3 layouts x 4 patches x 26 flag sets). " +
 			"oracle needs no model: snapshot (bytes, inode, mtime, mode, no new entries), exact stdout/stderr, exit 0, Apply returns the input bytes. non-trivial = file is not in canonical gofmt form or a guard of the patch holds",
 		Assumptions: []string{"the generator's claim that nothing matches is cross-checked: the output of an applied change would contain the marker identifier `mark`, which no input contains"},
-		Bounds:      func(tier string) map[string]any { return map[string]any{"patches": len(c06Patches()), "files": len(c06Files())} },
-		NewCase:     func() any { return &C06Case{} },
-		Gen:         c06Gen,
-		Run:         c06Run,
-		Setup:       cliSetup,
+		Bounds: func(tier string) map[string]any {
+			return map[string]any{"patches": len(c06Patches()), "files": len(c06Files())}
+		},
+		NewCase: func() any { return &C06Case{} },
+		Gen:     c06Gen,
+		Run:     c06Run,
+		Setup:   cliSetup,
 	})
 }
 
